@@ -107,6 +107,13 @@ class Repartition(Expr):
                     if is_series_like(divisions):
                         divisions = divisions.values
 
+                    offset = 0
+                    if np.issubdtype(original_divisions.dtype, np.integer):
+                        # float64 cannot represent integers beyond 2**53 exactly:
+                        # interpolate the distances to the first division instead
+                        offset = divisions[0]
+                        divisions = divisions - offset
+
                     n = len(divisions)
                     divisions = np.interp(
                         x=np.linspace(0, n, npartitions + 1),
@@ -118,7 +125,7 @@ class Repartition(Expr):
                             pd.Series(divisions).astype(original_divisions.dtype)
                         )
                     elif np.issubdtype(original_divisions.dtype, np.integer):
-                        divisions = divisions.astype(original_divisions.dtype)
+                        divisions = divisions.astype(original_divisions.dtype) + offset
 
                     if isinstance(divisions, np.ndarray):
                         divisions = divisions.tolist()
